@@ -4,6 +4,7 @@ CONSTANTS
   Texts = {"t1"}
   Deviations = {}
 VIEW view
+PROPERTY FilesSeparate
 PROPERTY Fresh
 PROPERTY Robust
 PROPERTY SameAsUncached
